@@ -440,6 +440,24 @@ pub fn run() {
       // components of a negative duration: the specification gives them the sign of the duration
       if *na >= 0 {
         expect(&run, &cnt, &format!("{}:components", kind), &format!("components of @\"{}\"", printer(*na)), &e_comp(&s1), &comp, json!({"engine":"c15","text":printer(*na)}));
+      } else {
+        // ... whichever convention is followed, it is the same for every component: all are the components of the opposite
+        // duration, or all are their negations - then they add up to the total length or to its magnitude
+        let negated = if kind == "dt-duration" {
+          let secs = abs / 1_000_000_000;
+          format!("[{}, {}, {}, {}]", -(secs / 86400), -((secs / 3600) % 24), -((secs / 60) % 60), -(secs % 60))
+        } else {
+          format!("[{}, {}]", -(abs / 12), -(abs % 12))
+        };
+        let got = show(&e_comp(&s1));
+        cnt.evals.fetch_add(1, Ordering::Relaxed);
+        if got != comp && got != negated {
+          run.violation(
+            &format!("{}:components-of-a-negative-duration", kind),
+            &format!("components of @\"{}\" evaluate to {}: neither the components of the opposite duration {} nor their negations {}", printer(*na), got, comp, negated),
+            json!({"engine":"c15","text":format!("@\"{}\".{}", printer(*na), if kind == "dt-duration" { "days" } else { "years" })}),
+          );
+        }
       }
       for (nb, vb) in vals.iter() {
         cnt.cases.fetch_add(1, Ordering::Relaxed);
